@@ -40,10 +40,100 @@ def body(sub, root: tuple, tv: TV, extra=None) -> List[Tuple[str, str, str, str]
 valuecheck.register("C03", body)
 
 
+def _large_work(args) -> dict:
+    """sizes: every array position of the metamodel holding N elements (k distinct generated ones, repeated): code that
+    batches, samples or switches to another path for long sequences."""
+    from .. import tvgen
+    from ..hyp import mini
+    from . import c01
+    items, seed, sizes = args
+    sub = valuecheck.subject()
+    lctx = Ctx("C03", "quick", seed)
+    res = {"evaluations": 0, "elements": 0, "loci": set()}
+    for (locus, root, route) in items:
+        el = f"{locus}|[]"
+        for n_el in sizes:
+            def target(gen, t, loc, depth):
+                tt = gen.m.resolve_alias(t)
+                old_t, gen.cfg.target = gen.cfg.target, None
+                try:
+                    distinct = []
+                    for sh in ("min", "max", None, None, "min", None, "max", None):
+                        gen.shape = sh
+                        gen.nodes = min(gen.nodes, 40)   # every distinct element gets a node budget of its own
+                        distinct.append(gen.type(tt["element"], el, depth + 1, None))
+                    gen.shape = None
+                    return tvgen.L([distinct[i % len(distinct)] for i in range(n_el)])
+                finally:
+                    gen.shape = None
+                    gen.cfg.target = old_t
+
+            def one(x):
+                tv, _ = x
+                res["evaluations"] += 1
+                res["elements"] += n_el
+                res["loci"].add(locus)
+                case = None
+                for f in body(sub, root, tv) + [g for g in c01.body(sub, root, tv)]:
+                    if case is None:
+                        case = {"root": list(root), "array_locus": locus, "elements": n_el, "tv": tvgen.to_json(tv), "extra": None}
+                    lctx.finding((f[0], f[1], f"array-of-{n_el}"), f[3], case)
+
+            try:
+                mini(tvgen.value_strategy(sub.objects, root, tvgen.GenCfg(route=route, target=target, max_nodes=120)), 1,
+                     (seed, "C03-large", locus, valuecheck.root_name(root), n_el), one)
+            except RecursionError:
+                continue
+    res["violations"] = list(lctx.violations.values())
+    res["known_hits"] = lctx.known_hits
+    res["known_examples"] = lctx.known_examples
+    res["loci"] = sorted(res["loci"])
+    return res
+
+
+def large_arrays(ctx: Ctx, sizes: List[int]) -> dict:
+    from .. import runner, tvgen
+    sub = valuecheck.subject()
+    sites = tvgen.Sites(sub.objects)
+    items = []
+    for locus, t in sorted(sub.objects.type_at.items()):
+        if t["kind"] != "array" or locus.split("|")[0] in ("alias:LSPAny", "alias:LSPArray", "alias:LSPObject"):
+            continue
+        ss = [s for s in sites.sites(locus, 1) if s[0][0] != "alias"]
+        if ss:
+            items.append((locus, ss[0][0], ss[0][1]))
+    results = runner.pmap(_large_work, [(sh, ctx.seed, sizes) for sh in runner.chunks(items, runner.NPROC * 3)])
+    ev = el = 0
+    loci = set()
+    for r in results:
+        ev += r["evaluations"]
+        el += r["elements"]
+        loci |= set(r["loci"])
+        ctx.merge_worker(r)
+    return {"array_positions": len(items), "array_positions_reached": len(loci), "sizes": sizes, "cases": ev, "elements_structured": el}
+
+
 def run(ctx: Ctx) -> None:
     ctx.assumptions = ["reference interpreter of lsp.json; non-strict validity (unknown keys ignored) decides 'an alternative for which the input was valid'"]
     valuecheck.run_value_property(ctx, "C03", n_quick=120, n_thorough=1000, rule=RULE)
+    big = large_arrays(ctx, [1000] if ctx.quick else [1000, 4096, 20000])
+    ctx.coverage["large_arrays"] = big
+    ctx.coverage["evaluations"] += big["cases"]
 
 
 def replay(ctx: Ctx, path: str) -> int:
+    import json
+    from .. import tvgen
+    from . import c01
+    with open(path) as f:
+        rp = json.load(f)
+    if "array_locus" in rp.get("case", {}):   # a large-array case: judged by this module's and C01's oracle
+        sub = valuecheck.subject()
+        tv, root = tvgen.from_json(rp["case"]["tv"]), tuple(rp["case"]["root"])
+        hit = [g for g in body(sub, root, tv) + c01.body(sub, root, tv) if [g[0], g[1]] == rp["signature"][:2]]
+        if hit:
+            print(f"VIOLATION property=C03 replay={path}\n  signature={rp['signature']} detail={hit[0][3]}")
+            return 1
+        print(f"[C03] replay {path}: signature no longer reproduces")
+        return 0
     return valuecheck.replay_value_case(ctx, "C03", path)
